@@ -261,6 +261,7 @@ where
 {
     assert!(range.start <= range.end && range.end <= window.size(), "extend_from_window: range outside the window");
     let len = range.end - range.start;
+    assert!(len > 0 && range.start < window.size(), "extend_from_window: empty copy — the match makes no progress");
     assert!(len <= w.remaining(), "extend_from_window: length exceeds the room left in the output buffer");
     let filled = w.len();
     let cap = w.capacity();
@@ -292,6 +293,7 @@ where
 {
     assert!(range.start <= range.end && range.end <= window.size(), "extend_from_window: range outside the window");
     let len = range.end - range.start;
+    assert!(len > 0 && range.start < window.size(), "extend_from_window: empty copy — the match makes no progress");
     assert!(len <= w.remaining(), "extend_from_window: length exceeds the room left in the output buffer");
     let filled = w.len();
     let cap = w.capacity();
@@ -430,6 +432,100 @@ fn ki5d_match_guard_dispatch() {
 #[kani::stub(crate::inflate::writer::Writer::extend_from_window, stub_efw_contract0)]
 fn ki5d_match_guard_friends() {
     match_step::<true, 8, 258, false>();
+}
+
+// ---------------------------------------------------------------------------------------------------------------
+// a dynamic distance code with codes longer than the 9-bit root table (second-level tables): lengths 1, 2, ..., 9, 10, 10
+// for the distance symbols 0..=10 (complete).  The table is built by the real `inflate_table` from these concrete lengths.
+// Symbol 9 is `1111111110`, symbol 10 `1111111111` (first bit first).  With only the nine root bits available the step must
+// suspend without consuming them; with the tenth bit from the next input byte both calls together decode the symbol a single
+// call would (C04), in the copy of the code that runs when a call resumes mid-match (`dispatch`) and in `len_and_friends`.
+fn install_long_dist_code(state: &mut State<'_>) {
+    let mut lens = [0u16; 30];
+    let mut k = 0;
+    while k < 9 {
+        lens[k] = (k + 1) as u16;
+        k += 1;
+    }
+    lens[9] = 10;
+    lens[10] = 10;
+    let r = inftrees::inflate_table(inftrees::CodeType::Dists, &lens, &mut state.dist_codes, 9, &mut state.work);
+    let inftrees::InflateTable::Success { root, used } = r else { panic!("a complete code") };
+    assert!(root == 9 && used > 512);
+    state.dist_table = Table { codes: Codes::Dist, bits: root };
+    state.len_table = Table { codes: Codes::Fixed, bits: 9 };
+}
+
+fn dist_long_code<const VIA_FRIENDS: bool>() {
+    let mut out = [0u8; 4];
+    let mut win = [0u8; 8 + 64];
+    let mut state = typed_state(&mut win, 0, Mode::Dist);
+    install_long_dist_code(&mut state);
+    state.length = 3;
+    state.was = 3;
+    state.back = 0;
+    state.bit_reader.prime(9, 0x1ff); // the nine root bits of a ten-bit code, nothing else
+    state.writer = unsafe { Writer::new_uninit_raw(out.as_mut_ptr(), 2, 2) }; // full: Match returns at once
+    let input: [u8; 1] = kani::any();
+    unsafe { state.bit_reader.update_slice(input.as_ptr(), 0) };
+    state.in_available = 0;
+    let rc1 = if VIA_FRIENDS {
+        match state.len_and_friends() {
+            ControlFlow::Break(rc) => rc,
+            ControlFlow::Continue(()) => ReturnCode::Ok,
+        }
+    } else {
+        state.dispatch()
+    };
+    assert!(rc1 == ReturnCode::Ok && matches!(state.mode, Mode::Dist), "not enough bits for the code: suspend");
+    assert!(state.bit_reader.bits_in_buffer() == 9 && state.bit_reader.hold() == 0x1ff, "an incomplete code stays in the bit register");
+    // the rest arrives
+    unsafe { state.bit_reader.update_slice(input.as_ptr(), 1) };
+    state.in_available = 1;
+    let rc2 = if VIA_FRIENDS {
+        match state.len_and_friends() {
+            ControlFlow::Break(rc) => rc,
+            ControlFlow::Continue(()) => ReturnCode::Ok,
+        }
+    } else {
+        state.dispatch()
+    };
+    // tenth bit = bit 0 of the byte: 0 -> symbol 9 (base 25, 3 extra bits), 1 -> symbol 10 (base 33, 4 extra bits);
+    // the extra bits follow in the same byte
+    let (base, xb) = if input[0] & 1 == 0 { (25usize, 3u32) } else { (33usize, 4u32) };
+    let extra = ((input[0] >> 1) as usize) & ((1 << xb) - 1);
+    assert!(rc2 == ReturnCode::Ok && matches!(state.mode, Mode::Match), "the match is decoded; the full writer stops the copy");
+    assert!(state.offset == base + extra, "distance = RFC base of the symbol + extra bits");
+    assert!(state.bit_reader.bits_in_buffer() as u32 == 8 - 1 - xb);
+    assert!(state.length == 3);
+    kani::cover!(input[0] & 1 == 1 && extra == 15);
+    kani::cover!(input[0] & 1 == 0 && extra == 0);
+    core::mem::forget(state);
+}
+
+#[kani::proof]
+#[kani::unwind(34)]
+#[kani::stub(core::fmt::write, stub_fmt_write)]
+#[kani::stub(core::panicking::panic_nounwind, stub_pn)]
+#[kani::stub(core::panicking::panic_nounwind_fmt, stub_pnf)]
+#[kani::stub(crate::inflate::inflate_fast_help, stub_fast_unreachable)]
+#[kani::stub(crate::inflate::State::len_and_friends, stub_laf_suspends)]
+#[kani::stub(crate::inflate::writer::Writer::copy_match, stub_copy_match_unreachable)]
+#[kani::stub(crate::inflate::writer::Writer::extend_from_window, stub_efw_unreachable)]
+fn ki5d_dist_long_code_dispatch() {
+    dist_long_code::<false>();
+}
+
+#[kani::proof]
+#[kani::unwind(34)]
+#[kani::stub(core::fmt::write, stub_fmt_write)]
+#[kani::stub(core::panicking::panic_nounwind, stub_pn)]
+#[kani::stub(core::panicking::panic_nounwind_fmt, stub_pnf)]
+#[kani::stub(crate::inflate::inflate_fast_help, stub_fast_unreachable)]
+#[kani::stub(crate::inflate::writer::Writer::copy_match, stub_copy_match_unreachable)]
+#[kani::stub(crate::inflate::writer::Writer::extend_from_window, stub_efw_unreachable)]
+fn ki5d_dist_long_code_friends() {
+    dist_long_code::<true>();
 }
 
 /// LENFIX / DISTFIX (the fixed-table constants used by every fixed block) equal RFC 1951 3.2.6:
